@@ -50,9 +50,10 @@ def run(ctx, rep):
     run_dep(ctx, rep, "C16")
     from ..rules_tz import floor_print
     floor_print(rep, ctx.prog("Q"))
-    from ..rules_parse import sign_distrib, obs_year
+    from ..rules_parse import sign_distrib, obs_year, verbatim
     sign_distrib(rep, ctx.prog("Q"))
     obs_year(rep, ctx.prog("Q"))
+    verbatim(rep, ctx.prog("Q"))
     prog = ctx.prog("Q")
     rep.notes.append("Does not decide agreement with the C library, week-number arithmetic or the %y pivot.")
     specifier_set(rep, prog)
